@@ -9,7 +9,7 @@
    (isolation on unchained schemes, non-blocking Put). *)
 From Coq Require Import ZArith List Bool Lia.
 From DV Require Import Model.Cache Proofs.CacheProofs Model.CbStore Proofs.CbStoreProofs
-  Gen.Consts Gen.AggWindow.
+  Gen.Consts Gen.AggWindow Gen.StreamCalls.
 Import ListNotations.
 Open Scope Z_scope.
 
@@ -20,6 +20,13 @@ Proof. repeat split; discriminate. Qed.
 
 (* runAggregator: isNotInPast is strict, isNotTooFar is inclusive, both guard cache.Append, the
    cache is flushed on every stored beacon and before lastBeacon advances after an aggregation *)
+(* "stream callback removes itself on error": every return of SyncChain after store.AddCallback is
+   directly preceded by store.RemoveCallback(id) or passes on the error of the callback, which removed
+   itself or was replaced (Gen/StreamCalls.v); the stream engine counts the callbacks left in the real
+   callback store after streams that failed inside the hand-over *)
+Theorem C12_sync_chain_exits_unregister : sync_chain_exits_unregister = true.
+Proof. reflexivity. Qed.
+
 Theorem C12_window_shape :
   (agg_window_lower_strict, agg_window_upper_inclusive, agg_window_guards_append,
    agg_flush_on_stored, agg_flush_before_head_advance) = (true, true, true, true, true).
